@@ -276,7 +276,7 @@ func cmdCheck(args []string) int {
 		return fail("no obligations generated for " + *prop + " (vacuous check)")
 	}
 	tGen := time.Since(t0).Seconds() - tLoad
-	dischargeAll(obls, scratch, secs, 6)
+	dischargeAll(obls, scratch, secs, 12)
 	// retry unknowns once at 3x on quick tier
 	var retry []*Obligation
 	for _, o := range obls {
